@@ -7,6 +7,9 @@ root = os.path.join(VERIF, "seeded")
 names = sys.argv[1:] or sorted(d for d in os.listdir(root) if os.path.isfile(os.path.join(root, d, "meta.json")))
 needs_file = os.path.join(root, "needs.json")
 needs = json.load(open(needs_file)) if os.path.exists(needs_file) else {}
+os.environ["SEED_BASELINE"] = "/tmp/seed_baseline.json"
+if os.path.exists(os.environ["SEED_BASELINE"]):
+    os.remove(os.environ["SEED_BASELINE"])
 for n in names:
     d = os.path.join(root, n)
     meta = json.load(open(os.path.join(d, "meta.json")))
